@@ -496,6 +496,11 @@ pub fn shrink_scenario(sc: &Scenario) -> Vec<Scenario> {
         s.print = None;
         out.push(s);
     }
+    if sc.batch > sc.train.len() + 1 {
+        let mut s = sc.clone();
+        s.batch = sc.train.len() + 1;
+        out.push(s);
+    }
     if sc.batch > 1 {
         let mut s = sc.clone();
         s.batch = 1;
@@ -532,6 +537,8 @@ pub fn scenario_probes(sc: &Scenario, stats: &mut crate::core::Stats) {
     stats.probe("batch_gt_1", sc.batch > 1 && n > 1);
     stats.probe("last_group_partial", sc.batch < n && n % sc.batch != 0);
     stats.probe("batch_gt_n", sc.batch > n);
+    stats.probe("batch_usize_max", sc.batch == usize::MAX);
+    stats.probe("tolerance_i32_max", sc.val.is_some() && sc.early_tol == i32::MAX);
     let sizes: Vec<usize> = [sc.val.as_ref().map(|d| d.len()), sc.eval.as_ref().map(|d| d.len()), if sc.pred.is_empty() { None } else { Some(sc.pred.len()) }]
         .iter()
         .flatten()
